@@ -1,6 +1,7 @@
 package main
 
 import (
+	"regexp"
 	"unicode/utf8"
 	"encoding/base64"
 	"encoding/json"
@@ -126,6 +127,11 @@ func genProto(r *gen.Rand, t *ref.VersionTraits) protoSpec {
 	for i := r.Intn(4); i > 0; i-- {
 		ps.Auth = append(ps.Auth, fakeEventID(r, t))
 	}
+	if t.Domainless && ps.RoomID != "" && r.Chance(0.3) {
+		// a caller that lists the create event among the auth events although the room ID implies it
+		at := r.Intn(len(ps.Auth) + 1)
+		ps.Auth = append(ps.Auth[:at:at], append([]string{"$" + ps.RoomID[1:]}, ps.Auth[at:]...)...)
+	}
 	if r.Chance(0.4) {
 		ps.Unsigned = []byte(`{"age":77,"prev_content":{"a":[1,2,{"b":null}]}}`)
 	}
@@ -198,6 +204,10 @@ func protoVariants(r *gen.Rand, t *ref.VersionTraits, ps protoSpec) map[string]p
 }
 
 func runC03(c *mon.Ctx) {
+	onProtoMutated = func(detail string) {
+		c.Failf("build:proto-event-rewritten", "%s", detail)
+	}
+	defer func() { onProtoMutated = nil }()
 	r := c.Rand("protos")
 	id := gen.NewIdentity(c.RandShared("id"), "a.example", "ed25519:k1")
 	id2 := gen.NewIdentity(c.RandShared("id2"), "b.example:8448", "ed25519:k2")
@@ -390,6 +400,15 @@ func runC03(c *mon.Ctx) {
 							c.Failf(sig, "Build(v%s) accepts a proto-event with unsigned %q / content %q, and the event it builds is refused as untrusted input: %v", ver, ps3.Unsigned, ps3.Content, perr)
 						} else if u3.EventID() != ev3.EventID() {
 							c.Failf("roundtrip:untrusted:event_id", "event built with unsigned %s re-parses under another ID", ps3.Unsigned)
+						}
+						if esc := regexp.MustCompile(`\\u[dD][89a-fA-F][0-9a-fA-F]{2}`); t.EventIDFormat >= 2 && esc.Match(ps3.Content) {
+							// a content with such an escape and the content without it are two contents (every decoder reads
+							// U+FFFD for the escape): built into events, they are two events
+							ps4 := ps3
+							ps4.Content = esc.ReplaceAll(ps3.Content, nil)
+							if ev4, err4 := buildEvent(ver, ps4, id, baseTime); err4 == nil && ev4.EventID() == ev3.EventID() {
+								c.Failf("id:insensitive-to:unpaired-surrogate-escape-in-content", "Build(v%s) makes the same event (%s) of the contents %s and %s", ver, ev3.EventID(), ps3.Content, ps4.Content)
+							}
 						}
 					}
 				}
